@@ -8,9 +8,11 @@ import (
 
 	"github.com/vechain/thor/v2/block"
 	"github.com/vechain/thor/v2/builtin"
+	"github.com/vechain/thor/v2/consensus"
 	"github.com/vechain/thor/v2/consensus/upgrade/galactica"
 	"github.com/vechain/thor/v2/packer"
 	"github.com/vechain/thor/v2/state"
+	"github.com/vechain/thor/v2/test/testchain"
 	"github.com/vechain/thor/v2/thor"
 	"github.com/vechain/thor/v2/trie"
 	"github.com/vechain/thor/v2/tx"
@@ -82,6 +84,43 @@ func GenChain(r *hx.Rand) *ChainCase {
 	return c
 }
 
+// GenChainPoS: blocks 1..N on the repo's integration chain: HAYABUSA at block 2 (growth stops there), the dev accounts stake at
+// block 3 (the case's own transactions), PoS takes over at block 4 and pays the staking reward from then on; GALACTICA before /
+// at / after each of these heights or never.
+func GenChainPoS(r *hx.Rand) *ChainCase {
+	c := &ChainCase{Setup: GenSetupPoS(r), Chain: true}
+	c.Setup.Galactica = []uint32{1, 2, 3, 4, 5, 6, 1000}[r.Intn(7)]
+	c.Setup.Balances, c.Setup.Energies, c.Setup.PoorOrigin, c.Setup.CreditTo, c.Setup.Sponsor = map[string]string{}, map[string]string{}, -1, "", -1
+	if r.Chance(1, 2) {
+		c.Setup.Benef = AddrHex(DevAddr(r.Intn(10)))
+	}
+	ch, fc := NewPoSChain(c.Setup.Galactica)
+	s0 := c.Setup
+	w := &World{DB: ch.Database(), Repo: ch.Repo(), Fork: fc, Genesis: ch.GenesisBlock().Header().ID(), Known: map[thor.Bytes32]thor.Address{}, Setup: &s0,
+		closer: func() { ch.LogDB().Close() }}
+	defer w.Close()
+	nb := 5 + r.Intn(4)
+	for b := 0; b < nb; b++ {
+		s := c.Setup
+		s.Number = uint32(1 + b)
+		s.BaseFee = dec(thor.InitialBaseFee)
+		var txs []TxSpec
+		if s.Number == 3 {
+			txs = append(txs, StakeSpecs()...)
+		}
+		for i := r.Intn(5); i > 0; i-- {
+			t := GenTx(r, &s, w)
+			if t.RefKind != 0 {
+				t.RefKind = 0
+			}
+			t.BadSig = false
+			txs = append(txs, t)
+		}
+		c.Blocks = append(c.Blocks, txs)
+	}
+	return c
+}
+
 // RunChain returns the first block-level property failure (nil if none) and the number of blocks / txs adopted.
 func RunChain(ctx *hx.Ctx, prop string, c *ChainCase, count bool, orc *hx.OracleProc) *Failure {
 	cnt := func(k string, n int) {
@@ -90,25 +129,56 @@ func RunChain(ctx *hx.Ctx, prop string, c *ChainCase, count bool, orc *hx.Oracle
 		}
 	}
 	s := c.Setup
-	w := NewWorld(&s)
-	defer w.Close()
-	gen, err := w.Repo.GetBlockSummary(w.Genesis)
-	if err != nil {
-		hx.Fatal("%v", err)
-	}
-	b1 := new(block.Builder).ParentID(w.Genesis).Timestamp(gen.Header.Timestamp() + thor.BlockInterval()).GasLimit(gen.Header.GasLimit()).
-		StateRoot(w.Root.Hash).TotalScore(1).Build()
-	if err := w.Repo.AddBlock(b1, nil, 0, true); err != nil {
-		hx.Fatal("add block 1: %v", err)
-	}
+	var w *World
+	var posChain *testchain.Chain
 	benef := parseAddr(s.Benef)
-	w.Fork.VIP214, w.Fork.FINALITY = ^uint32(0), ^uint32(0) // plain PoA v1 scheduling and signatures (block 1 is unsigned)
-	p := packer.New(w.Repo, state.NewStater(w.DB), DevAddr(0), &benef, w.Fork, 0)
+	var p *packer.Packer
+	signer := DevKey(0)
+	if s.PoS {
+		// the repo's integration chain from genesis: PoA blocks 1.., HAYABUSA at 2, validators staked by the case's own txs, PoS from 4
+		var fc *thor.ForkConfig
+		posChain, fc = NewPoSChain(s.Galactica)
+		w = &World{DB: posChain.Database(), Repo: posChain.Repo(), Fork: fc, Genesis: posChain.GenesisBlock().Header().ID(),
+			GenTime: posChain.GenesisBlock().Header().Timestamp(), Root: trie.Root{Hash: posChain.GenesisBlock().Header().StateRoot()},
+			Known: map[thor.Bytes32]thor.Address{}, Setup: &s, closer: func() { posChain.LogDB().Close() }}
+		w.knowBasics()
+		orc = nil // Schedule itself updates the staker (SyncPOS, SetOnline): no shadow execution next to the flow in PoS worlds
+	} else {
+		w = NewWorld(&s)
+		gen, err := w.Repo.GetBlockSummary(w.Genesis)
+		if err != nil {
+			hx.Fatal("%v", err)
+		}
+		b1 := new(block.Builder).ParentID(w.Genesis).Timestamp(gen.Header.Timestamp() + thor.BlockInterval()).GasLimit(gen.Header.GasLimit()).
+			StateRoot(w.Root.Hash).TotalScore(1).Build()
+		if err := w.Repo.AddBlock(b1, nil, 0, true); err != nil {
+			hx.Fatal("add block 1: %v", err)
+		}
+		w.Fork.VIP214, w.Fork.FINALITY = ^uint32(0), ^uint32(0) // plain PoA v1 scheduling and signatures (block 1 is unsigned)
+		p = packer.New(w.Repo, state.NewStater(w.DB), DevAddr(0), &benef, w.Fork, 0)
+	}
+	defer w.Close()
+	dsOrc := dsOracle
 	var lines []string
 	var want []string
+	var pending *Failure // first model/implementation disagreement; a direct property failure found later takes precedence
+	disagree := func(f *Failure) {
+		if pending == nil {
+			pending = f
+		}
+		orc = nil
+	}
 	for _, specs := range c.Blocks {
 		parent := w.Repo.BestBlockSummary()
 		var shadowReceipts tx.Receipts
+		if s.PoS {
+			v, found := posChain.NextValidator()
+			if !found {
+				hx.Fatal("no validator can pack on top of block %d", parent.Header.Number())
+			}
+			signer = v.PrivateKey
+			p = packer.New(w.Repo, posChain.Stater(), v.Address, &benef, w.Fork, 0)
+		}
 		flow, err := p.Schedule(parent, parent.Header.Timestamp()+1)
 		if err != nil {
 			hx.Fatal("schedule: %v", err)
@@ -167,7 +237,8 @@ func RunChain(ctx *hx.Ctx, prop string, c *ChainCase, count bool, orc *hx.Oracle
 				hx.Fatal("oracle: %v", aerr)
 			}
 			if strings.HasPrefix(ans, "ERR") {
-				return &Failure{"correspondence:adopt-outcome", fmt.Sprintf("block %d tx %d: impl=%s, model cannot follow: %s", flow.Number(), i, orNil(class, "adopted"), ans)}
+				disagree(&Failure{"correspondence:adopt-outcome", fmt.Sprintf("block %d tx %d: impl=%s, model cannot follow: %s", flow.Number(), i, orNil(class, "adopted"), ans)})
+				continue
 			}
 			a := o.ParseAnswer(ans)
 			if a.Failed != (err != nil) || (a.Failed && a.Err != class) {
@@ -175,21 +246,29 @@ func RunChain(ctx *hx.Ctx, prop string, c *ChainCase, count bool, orc *hx.Oracle
 				if a.Failed {
 					m = a.Err
 				}
-				return &Failure{"correspondence:adopt-outcome", fmt.Sprintf("block %d tx %d: packer.Flow.Adopt=%s model adopt_full=%s", flow.Number(), i, orNil(class, "adopted"), m)}
+				disagree(&Failure{"correspondence:adopt-outcome", fmt.Sprintf("block %d tx %d: packer.Flow.Adopt=%s model adopt_full=%s", flow.Number(), i, orNil(class, "adopted"), m)})
+				continue
 			}
 			if !a.Failed {
 				// the shadow run stands for the flow's own execution of this tx: receipts are compared after Pack
 				if d := o.Correspond(a, true); len(d) > 0 {
-					return &Failure{"correspondence:adopt-" + d[0].Field, fmt.Sprintf("block %d tx %d: %s", flow.Number(), i, d[0].Detail)}
+					disagree(&Failure{"correspondence:adopt-" + d[0].Field, fmt.Sprintf("block %d tx %d: %s", flow.Number(), i, d[0].Detail)})
+					continue
 				}
 				modelUsed = a.FlowUsed
 				modelProcessed = append([]string{hx.HexN(trx.ID().Bytes()), b01(a.Reverted)}, modelProcessed...)
 				shadowReceipts = append(shadowReceipts, o.Receipt)
 			}
 		}
-		blk, stage, receipts, err := flow.Pack(DevKey(0), 0, false)
+		blk, stage, receipts, err := flow.Pack(signer, 0, false)
 		if err != nil {
 			hx.Fatal("pack: %v", err)
+		}
+		if s.PoS {
+			// the packed block must pass the consensus validator (as testchain.MintBlock requires)
+			if _, _, err := consensus.New(w.Repo, posChain.Stater(), w.Fork).Process(parent, blk, flow.When(), 0); err != nil {
+				return &Failure{"correspondence:consensus-rejects-packed-block", fmt.Sprintf("block %d packed by packer.Flow is rejected by consensus: %v", blk.Header().Number(), err)}
+			}
 		}
 		if _, err := stage.Commit(); err != nil {
 			hx.Fatal("commit: %v", err)
@@ -200,20 +279,69 @@ func RunChain(ctx *hx.Ctx, prop string, c *ChainCase, count bool, orc *hx.Oracle
 		h := blk.Header()
 		if orc != nil {
 			if modelUsed.Cmp(new(big.Int).SetUint64(h.GasUsed())) != 0 {
-				return &Failure{"correspondence:adopt-block-gas", fmt.Sprintf("block %d: header gasUsed=%d, adopt_full fold=%s", h.Number(), h.GasUsed(), modelUsed)}
-			}
-			if len(shadowReceipts) != len(receipts) || (len(receipts) > 0 && shadowReceipts.RootHash() != receipts.RootHash()) {
-				return &Failure{"correspondence:adopt-receipts", fmt.Sprintf("block %d: the flow's receipts differ from the shadow execution the model was checked against", h.Number())}
-			}
-			if adopted > 0 && w.Root.Hash != h.StateRoot() {
-				return &Failure{"correspondence:adopt-state-root", fmt.Sprintf("block %d: packed state root differs from the shadow execution's", h.Number())}
+				disagree(&Failure{"correspondence:adopt-block-gas", fmt.Sprintf("block %d: header gasUsed=%d, adopt_full fold=%s", h.Number(), h.GasUsed(), modelUsed)})
+			} else if len(shadowReceipts) != len(receipts) || (len(receipts) > 0 && shadowReceipts.RootHash() != receipts.RootHash()) {
+				disagree(&Failure{"correspondence:adopt-receipts", fmt.Sprintf("block %d: the flow's receipts differ from the shadow execution the model was checked against", h.Number())})
+			} else if adopted > 0 && w.Root.Hash != h.StateRoot() {
+				disagree(&Failure{"correspondence:adopt-state-root", fmt.Sprintf("block %d: packed state root differs from the shadow execution's", h.Number())})
 			}
 		}
 		cnt("blocks-packed", 1)
 		cnt("block-txs-adopted", adopted)
 		T := h.Timestamp()
-		pre := w.WalkAt(parent.Root(), T, ^uint64(0))
-		post := w.WalkAt(trie.Root{Hash: h.StateRoot(), Ver: trie.Version{Major: h.Number()}}, T, ^uint64(0))
+		postRoot := trie.Root{Hash: h.StateRoot(), Ver: trie.Version{Major: h.Number()}}
+		stop := w.stopTime(postRoot, T) // growth stops AT the HAYABUSA block's time: energy at T is the same with either stop time
+		pre := w.WalkAt(parent.Root(), T, stop)
+		post := w.WalkAt(postRoot, T, stop)
+		if stop != ^uint64(0) {
+			cnt("blocks-with-energy-growth-stopped", 1)
+		}
+		if stop <= T {
+			// growth has stopped: the same state evaluated much later holds the same total VTHO
+			if later := w.WalkAt(postRoot, T+8640000, stop); later.SumEng.Cmp(post.SumEng) != 0 {
+				return &Failure{"energy-grows-after-hayabusa", fmt.Sprintf("block %d: total VTHO of the same state is %s at the block time and %s 100 days later although growth stopped at %d",
+					h.Number(), post.SumEng, later.SumEng, stop)}
+			}
+		}
+		benef := h.Beneficiary() // a validator may have set its own beneficiary in the staker contract
+		// staking reward (PoS active): energy.DistributeRewards issues CalculateRewards(staker) to the beneficiary (and the
+		// delegator contract); the split is the Ledger model's `distribute`
+		staking := new(big.Int)
+		extra := map[thor.Address]*big.Int{}
+		if s.PoS {
+			postSt := state.New(w.DB, postRoot)
+			stk := builtin.Staker.Native(postSt)
+			if active, _ := stk.IsPoSActive(); active {
+				cnt("blocks-pos-active", 1)
+				eng := builtin.Energy.Native(postSt, T)
+				if staking, err = eng.CalculateRewards(stk); err != nil {
+					hx.Fatal("calculate rewards: %v", err)
+				}
+				sig, _ := h.Signer()
+				hasDeleg, _ := stk.HasDelegations(sig)
+				perc, _ := builtin.Params.Native(postSt).Get(thor.KeyValidatorRewardPercentage)
+				dv, _ := builtin.Params.Native(postSt).Get(thor.KeyDelegatorContractAddress)
+				deleg := thor.BytesToAddress(dv.Bytes())
+				ans, aerr := dsOrc(ctx, fmt.Sprintf("DS %x %x %s %s %s %s %s", T, stop, addrN(benef), addrN(deleg), hexBig(staking), hexBig(perc), b01(hasDeleg)))
+				if aerr != nil {
+					hx.Fatal("oracle: %v", aerr)
+				}
+				f := strings.Fields(ans) // benefShare delegShare issued
+				if len(f) != 3 {
+					hx.Fatal("oracle DS answer: %q", ans)
+				}
+				extra[benef] = bigHex(f[0])
+				if deleg != benef {
+					extra[deleg] = bigHex(f[1])
+				}
+				// the issued counter: total supply (grown initial supply + issued) moves by exactly the reward
+				preSup, _ := builtin.Energy.Native(state.New(w.DB, parent.Root()), T).TotalSupply()
+				postSup, _ := eng.TotalSupply()
+				if d := new(big.Int).Sub(postSup, preSup); stop <= parent.Header.Timestamp() && d.Cmp(staking) != 0 {
+					return &Failure{"issued-not-staking-reward", fmt.Sprintf("block %d: energy total supply moved by %s, staking reward is %s", h.Number(), d, staking)}
+				}
+			}
+		}
 		// C07: block gas used = sum of receipts <= limit; every receipt within its tx's bounds
 		var sumGas uint64
 		sumPaid, sumReward := new(big.Int), new(big.Int)
@@ -263,6 +391,12 @@ func RunChain(ctx *hx.Ctx, prop string, c *ChainCase, count bool, orc *hx.Oracle
 			if h.GasUsed() > h.GasLimit() {
 				return &Failure{"block-gas-over-limit", fmt.Sprintf("gasUsed=%d > limit=%d", h.GasUsed(), h.GasLimit())}
 			}
+			// rejected transactions change nothing, adopted ones only what their receipts show: every leaf's funds are explained
+			if f := ExplainLeavesExtra(pre, post, receipts, benef, extra); f != nil && !selfDestructSelf {
+				f.Class = "block-funds-not-explained-by-receipts:" + f.Class
+				f.Summary = fmt.Sprintf("block %d: %s", h.Number(), f.Summary)
+				return f
+			}
 			continue
 		}
 		// C08: totals over ALL account leaves
@@ -271,9 +405,15 @@ func RunChain(ctx *hx.Ctx, prop string, c *ChainCase, count bool, orc *hx.Oracle
 		}
 		wantEng := new(big.Int).Add(pre.SumEng, sumReward)
 		wantEng.Sub(wantEng, sumPaid)
+		wantEng.Add(wantEng, staking)
 		if wantEng.Cmp(post.SumEng) != 0 {
-			return &Failure{cls("vtho-total-delta"), fmt.Sprintf("block %d: total VTHO at block time changed by %s, expected sum(reward)-sum(paid) = %s", h.Number(),
-				new(big.Int).Sub(post.SumEng, pre.SumEng), new(big.Int).Sub(sumReward, sumPaid))}
+			return &Failure{cls("vtho-total-delta"), fmt.Sprintf("block %d: total VTHO at block time changed by %s, expected sum(reward)-sum(paid)+staking reward = %s", h.Number(),
+				new(big.Int).Sub(post.SumEng, pre.SumEng), new(big.Int).Sub(wantEng, pre.SumEng))}
+		}
+		if f := ExplainLeavesExtra(pre, post, receipts, benef, extra); f != nil {
+			f.Class = cls(f.Class)
+			f.Summary = fmt.Sprintf("block %d: %s", h.Number(), f.Summary)
+			return f
 		}
 		// base fee of the packed header = the recurrence on the parent header (and the model's)
 		exp := galactica.CalcBaseFee(parent.Header, w.Fork)
@@ -308,7 +448,7 @@ func RunChain(ctx *hx.Ctx, prop string, c *ChainCase, count bool, orc *hx.Oracle
 			}
 		}
 	}
-	return nil
+	return pending
 }
 
 func orNil(s, d string) string {
@@ -404,3 +544,12 @@ func LoadChainReplay(raw []byte) *ChainCase {
 	return doc.Replay
 }
 
+
+// dsOracle asks the extracted ledger model for the split of a staking reward (one-shot oracle call).
+func dsOracle(ctx *hx.Ctx, line string) (string, error) {
+	ans, err := hx.AskAll(ctx.Oracle, []string{line})
+	if err != nil {
+		return "", err
+	}
+	return ans[0], nil
+}
